@@ -286,6 +286,12 @@ func doParsing(mp *msgParser) (err error) {
 		mp.fieldIndex++
 	}
 
+	// The field array was sized by counting SOH bytes, and an XMLData payload may contain some:
+	// keep the entries that were filled.
+	if mp.fieldIndex < len(mp.msg.fields) {
+		mp.msg.fields = mp.msg.fields[:mp.fieldIndex+1]
+	}
+
 	// This will happen if there are no fields in the body
 	if mp.foundTrailer && !mp.foundBody {
 		mp.trailerBytes = mp.rawBytes
